@@ -124,37 +124,45 @@ func genC10(rng *rand.Rand, n int, emit func(Case), dist map[string]int) {
 		}
 		return decorate(pool[rng.Intn(len(pool))])
 	}
+	var cfg c10Cfg
+	var rangesSx []Sx
+	kind := 0
 	for it := 0; it < n; it++ {
-		cfg := c10Cfg{loop: rng.Intn(4) != 0, link: rng.Intn(4) != 0, priv: rng.Intn(4) != 0}
-		var opts []echo.TrustOption
-		opts = append(opts, echo.TrustLoopback(cfg.loop), echo.TrustLinkLocal(cfg.link), echo.TrustPrivateNet(cfg.priv))
-		var rangesSx []Sx
-		for k := rng.Intn(3); k > 0; k-- {
-			_, nw, _ := net.ParseCIDR(cidrs[rng.Intn(len(cidrs))])
-			cfg.ranges = append(cfg.ranges, nw)
-			opts = append(opts, echo.TrustIPRange(nw))
-			// net.IPNet.Contains normalises a v4-mapped network and its mask to 4 bytes (networkNumberAndMask)
-			nb, mb := []byte(nw.IP), []byte(nw.Mask)
-			if v4 := nw.IP.To4(); v4 != nil {
-				nb = v4
-				if len(mb) == 16 && string(mb[:12]) == strings.Repeat("\xff", 12) {
-					mb = mb[12:]
-				}
-			}
-			rangesSx = append(rangesSx, L(c10Bytes(nb), c10Bytes(mb)))
-		}
-		kind := rng.Intn(3)
-		if rng.Intn(2) == 0 {
-			kind = 2
-		}
 		e := c10Echo // ONE instance (and so one recycled context) for the whole run: only the extractor changes
-		switch kind {
-		case 0:
-			e.IPExtractor = echo.ExtractIPDirect()
-		case 1:
-			e.IPExtractor = echo.ExtractIPFromRealIPHeader(opts...)
-		default:
-			e.IPExtractor = echo.ExtractIPFromXFFHeader(opts...)
+		if it > 0 && rng.Intn(3) != 0 {
+			// the extractor installed for the previous request serves this one too (an extractor is created once per server)
+			dist["extractor_reused"]++
+		} else {
+			cfg = c10Cfg{loop: rng.Intn(4) != 0, link: rng.Intn(4) != 0, priv: rng.Intn(4) != 0}
+			var opts []echo.TrustOption
+			opts = append(opts, echo.TrustLoopback(cfg.loop), echo.TrustLinkLocal(cfg.link), echo.TrustPrivateNet(cfg.priv))
+			rangesSx = nil
+			for k := rng.Intn(3); k > 0; k-- {
+				_, nw, _ := net.ParseCIDR(cidrs[rng.Intn(len(cidrs))])
+				cfg.ranges = append(cfg.ranges, nw)
+				opts = append(opts, echo.TrustIPRange(nw))
+				// net.IPNet.Contains normalises a v4-mapped network and its mask to 4 bytes (networkNumberAndMask)
+				nb, mb := []byte(nw.IP), []byte(nw.Mask)
+				if v4 := nw.IP.To4(); v4 != nil {
+					nb = v4
+					if len(mb) == 16 && string(mb[:12]) == strings.Repeat("\xff", 12) {
+						mb = mb[12:]
+					}
+				}
+				rangesSx = append(rangesSx, L(c10Bytes(nb), c10Bytes(mb)))
+			}
+			kind = rng.Intn(3)
+			if rng.Intn(2) == 0 {
+				kind = 2
+			}
+			switch kind {
+			case 0:
+				e.IPExtractor = echo.ExtractIPDirect()
+			case 1:
+				e.IPExtractor = echo.ExtractIPFromRealIPHeader(opts...)
+			default:
+				e.IPExtractor = echo.ExtractIPFromXFFHeader(opts...)
+			}
 		}
 		req := httptest.NewRequest(http.MethodGet, "/", nil)
 		// peer
